@@ -32,6 +32,9 @@ import Relic.Driver.ApkVerify
 import Relic.Driver.XmlSig
 import Relic.Driver.Magic
 import Relic.Driver.Vsix
+import Relic.Driver.Ident
+import Relic.Driver.Xap
+import Relic.Driver.MsiSign
 open Relic
 
 def dispatch (line : String) : String :=
@@ -73,6 +76,9 @@ def dispatch (line : String) : String :=
   | "XSIG" :: rest => Relic.Driver.XmlSig.handle rest
   | "MAGIC" :: rest => Relic.Driver.Magic.handle rest
   | "VSIX" :: rest => Relic.Driver.Vsix.handle rest
+  | "IDENT" :: rest => Relic.Driver.Ident.handle rest
+  | "XAP" :: rest => Relic.Driver.Xap.handle rest
+  | "MSIS" :: rest => Relic.Driver.MsiSign.handle rest
   | _ => "bad-op"
 
 partial def loop (h : IO.FS.Stream) (out : IO.FS.Stream) : IO Unit := do
